@@ -118,7 +118,7 @@ func leafSlots(shape string) []byte {
 // constant, 'l' literal, 'r' repeated variable (always b0 / i0).
 func assignLeaves(shape string, kinds string) string {
 	var sb strings.Builder
-	nb, ni, kb, ki, lit := 0, 0, 0, 0, 0
+	nb, ni, kb, ki, lit, ns := 0, 0, 0, 0, 0, 0
 	j := 0
 	for i := 0; i < len(shape); i++ {
 		if shape[i] != '?' {
@@ -130,6 +130,9 @@ func assignLeaves(shape string, kinds string) string {
 		kind := kinds[j]
 		j++
 		switch {
+		case sortc == 'S':
+			fmt.Fprintf(&sb, "s%d", ns)
+			ns++
 		case kind == 'v' && sortc == 'B':
 			fmt.Fprintf(&sb, "b%d", nb)
 			nb++
@@ -282,6 +285,22 @@ func stressShapes() []string {
 		"(and (and (not (= ?I 0)) ?B) (and (> (/ 10 ?I) 1) ?B))",
 		"(and ?B (and ?B (and (> (q ?I) ?I) ?B)))",
 		"(or (and ?B ?B) (or ?B (or (p ?B) ?B)))",
+		// operators and operand kinds the representatives above do not cover: 5+ operands, between, xor,
+		// n-ary eq, membership in literal lists, string operands, if as condition of if
+		"(+ ?I ?I ?I ?I ?I ?I)",
+		"(and ?B ?B ?B ?B ?B ?B)",
+		"(= ?I ?I ?I ?I ?I)",
+		"(if (between ?I 1 5) ?I (+ ?I ?I ?I ?I ?I))",
+		"(and (xor ?B ?B ?B) (not ?B))",
+		"(if (if ?B ?B ?B) ?I ?I)",
+		"(if (if ?B ?B ?B) (if ?B ?I ?I) ?I)",
+		"(and (= ?S \"x\") ?B)",
+		"(or (in ?I (1 2 3)) ?B (in ?S (\"x\" \"z\")))",
+		"(and (overlap (1 2) (2 3)) (in ?I ()) ?B)",
+		"(if (= ?S ?S) (% ?I ?I) (* ?I ?I ?I))",
+		"(or (< ?I ?I) (<= ?I ?I) (>= ?I ?I) (!= ?I ?I))",
+		"(and (between ?I ?I ?I) (ne ?I ?I) (eq ?B ?B))",
+		"(- (* ?I ?I) (mod ?I ?I) (div ?I ?I))",
 		// wider operators with nested operators in late positions
 		"(and ?B ?B (or ?B ?B ?B) ?B)",
 		"(or ?B ?B ?B (and ?B ?B ?B) ?B)",
